@@ -405,7 +405,8 @@ def size_of(design):
 def run_shard(ctx):
   import time
   per_batch = 4 if ctx.tier == "quick" else 8
-  half = time.time() + 0.4 * max(0.0, ctx.deadline - time.time())     # part A may start batches during the first 40% of the budget
+  # thorough: part A may start batches during the first 40% of the budget; quick: the case counts decide (no clock)
+  half = time.time() + (1.0 if ctx.tier == "quick" else 0.4) * max(0.0, ctx.deadline - time.time())
 
   @seed(ctx.hseed())
   # (Hypothesis' first example is always the minimal one: at least 3 examples per shard)
